@@ -244,6 +244,11 @@ class FrameInterp:
                     lab = self.eval(fn, st.value, env, depth)
                     if isinstance(lab, tuple) and lab and lab[0] == 'str':
                         self.label_store(fn, st, t, lab[1], env)
+                    elif isinstance(st.value, ast.Call) and self.prog.resolve(fn.module, st.value.func) == 'pandas.Series' and kwarg(st.value, 'index', 1) is None \
+                            and isinstance(t.value, ast.Name) and isinstance(const_value(t.slice), str):
+                        # frame[col] = pd.Series(values): assignment of a Series aligns on the index; a new Series has the labels 0..n-1
+                        self.events.append(('bad', fn, st, f"`{short(st, 70)}`: a Series without `index=` is aligned on the labels 0..n-1 when it is assigned as a column, so the rows of "
+                                            f"`{t.value.id}` whose index labels are different get NaN in '{const_value(t.slice)}' and are not drawn under their label"))
             elif isinstance(st, ast.Return) and st.value is not None:
                 ret = self.eval(fn, st.value, env, depth) if not isinstance(st.value, ast.Call) or \
                     not (self.prog.resolve(fn.module, st.value.func) or '').startswith('copulas.visualization._generate_scatter') \
